@@ -18,12 +18,19 @@ def main():
     if r.returncode != 0:
         print("patch does not apply:", r.stderr); sys.exit(2)
     sh("git -C /repo apply %s" % patch)
+    # the evidence file describes the unchanged tree: keep it (the run on the mutated tree goes to <seed>/evidence-<id>.json)
+    ev = "/verif/evidence/%s.json" % cid
+    saved = open(ev).read() if os.path.exists(ev) else None
     t = time.time()
     try:
         env = dict(os.environ); env.setdefault("VERIF_SEED", "0")
         p = subprocess.run(["./check", cid, "--tier", tier], cwd="/verif", text=True, capture_output=True, env=env)
     finally:
         sh("git -C /repo checkout -- .")
+        if os.path.exists(ev):
+            os.replace(ev, os.path.join(d, "evidence-%s.json" % cid))
+        if saved is not None:
+            open(ev, "w").write(saved)
     viol = [l for l in p.stdout.splitlines() if l.startswith("VIOLATION") or l.startswith("KNOWN-FINDING")]
     det = [l.strip() for l in p.stderr.splitlines() if "violation key=" in l or "INCONCLUSIVE" in l]
     run = {"check": cid, "tier": tier, "exit": p.returncode, "wall_s": round(time.time() - t, 1), "stdout_lines": viol, "detail": det[:6],
